@@ -952,6 +952,19 @@ class Interp:
             for k in e.keywords:
                 self.eval(k.value, fr)
             return NONE
+        if (not fr.spec and isinstance(e.func, ast.Attribute) and e.func.attr in ("frombytes", "extend")
+                and isinstance(e.func.value, (ast.Name, ast.Attribute)) and len(e.args) == 1):
+            recv = self.eval(e.func.value, fr)
+            if isinstance(recv, VSeq) and recv.pytype == "bytearray":
+                arg = self.eval(e.args[0], fr)
+                if not isinstance(arg, VSeq) or arg.pytype == "str":
+                    self.raise_py("TypeError", "a bytes-like object is required", site)
+                newv = ropes.concat(recv, VSeq(arg.segs, "bytearray"))
+                v = e.func.value
+                store = ast.Attribute(value=v.value, attr=v.attr, ctx=ast.Store()) if isinstance(v, ast.Attribute) \
+                    else ast.Name(id=v.id, ctx=ast.Store())
+                self.assign_target(store, VSeq(newv.segs, "bytearray"), fr)
+                return NONE
         if fr.spec and isinstance(e.func, ast.Name) and e.func.id == "old":
             saved = fr.in_old
             fr.in_old = True
@@ -1429,7 +1442,18 @@ class Interp:
                 if isinstance(t.slice, ast.Slice):
                     lo = self.eval(t.slice.lower, fr) if t.slice.lower is not None else None
                     hi = self.eval(t.slice.upper, fr) if t.slice.upper is not None else None
-                    self.del_slice(base, lo, hi, fr)
+                    if isinstance(base, VSeq) and base.pytype == "bytearray" and isinstance(t.value, (ast.Name, ast.Attribute)):
+                        # in-place deletion on an unaliased bytearray/array held in a variable or field:
+                        # compute the remaining sequence and store it back
+                        n = ropes.seq_len(base)
+                        head = self.py_slice(base, VInt(0), lo if lo is not None else VInt(0), fr)
+                        tail = self.py_slice(base, hi if hi is not None else VInt(n), None, fr)
+                        newv = ropes.concat(head, tail)
+                        store = ast.Attribute(value=t.value.value, attr=t.value.attr, ctx=ast.Store()) \
+                            if isinstance(t.value, ast.Attribute) else ast.Name(id=t.value.id, ctx=ast.Store())
+                        self.assign_target(store, VSeq(newv.segs, "bytearray"), fr)
+                    else:
+                        self.del_slice(base, lo, hi, fr)
                 else:
                     idx = self.eval(t.slice, fr)
                     self.del_index(base, idx, fr, fr.finfo.label(t))
